@@ -68,6 +68,14 @@ def jobs_for(tier, rng):
         if kind == "PVI":
             job.update({"period": 2, "clear": False})
         jobs.append(job)
+    # many solve() calls on one solver
+    for k, kind in enumerate(["VI", "SAVI", "RVI", "PVI"]):
+        m = gen.unichain(rng, v0max=1, PD=2) if kind == "RVI" else gen.ring(rng, 3, extra=2, v0max=1)
+        job = {"mdp": m, "kind": kind, "gamma": [1, 1], "eps": [1, 12], "test": "span", "calls": [1] * 12 + [2],
+               "mbs": 2, "shuffle": kind == "SAVI", "seed": 5, "tag": f"manycalls-{kind}"}
+        if kind == "PVI":
+            job.update({"period": 2, "clear": False})
+        jobs.append(job)
     # long runs: integer-valued undiscounted deterministic MDPs never leave the 32-bit range, so hundreds of
     # sweeps (and several calls) can be judged exactly
     for k in range(4 if tier == "quick" else 16):
